@@ -167,19 +167,24 @@ def find_days_to_exclude(
   Returns:
     days_exclude: a List of TimeWindows obtained from the list in input.
   """
+  def parse_day(day):
+    # Only the documented format: a general date parser silently reads, e.g.,
+    # '2020/01' as 2020/01/01 and '20/01/01' as 2001/01/20.
+    return pd.to_datetime(day.strip(), format='%Y/%m/%d')
+
   days_exclude = []
   for x in dates_to_exclude:
     tmp = x.split('-')
     if len(tmp) == 1:
       try:
         days_exclude.append(
-            TimeWindow(pd.Timestamp(tmp[0]), pd.Timestamp(tmp[0])))
+            TimeWindow(parse_day(tmp[0]), parse_day(tmp[0])))
       except ValueError:
         raise ValueError(f'Cannot convert the string {tmp[0]} to a valid date.')
     elif len(tmp) == 2:
       try:
         days_exclude.append(
-            TimeWindow(pd.Timestamp(tmp[0]), pd.Timestamp(tmp[1])))
+            TimeWindow(parse_day(tmp[0]), parse_day(tmp[1])))
       except ValueError:
         raise ValueError(
             f'Cannot convert the strings in {tmp} to a valid date.')
